@@ -149,7 +149,9 @@ def ref_type(pos, target):
 
 def build_program(rng, n, edges, renamed=(), const_alias=False):
     """n items T0..T{n-1}; edges: (i, j, position) = Ti refers to Tj at that position; plus a generic `Wrap<T>`"""
-    names = ["T%d" % i for i in range(n)]
+    # type names: the conventional `T3`, and legitimate unconventional spellings (lower-case, leading underscore, all capitals)
+    scheme = rng.choice(["T%d"] * 3 + ["mixed", "mixed", "item_%d", "_Meta%d"])
+    names = [(rng.choice(["T%d", "item_%d", "_Meta%d", "t%d", "ALLCAPS%d", "camelCase%d"]) if scheme == "mixed" else scheme) % i for i in range(n)]
     kinds = []
     for i in range(n):
         mine = [e for e in edges if e[0] == i]
@@ -259,12 +261,12 @@ def order_part(check):
             mreq, rreq, texts = l2.requests(lang, cfg, [{"crate": "", "file_name": "o", "path": "src/lib.rs", "file": f}], g)
             mreqs.append(mreq)
             rreqs.append(rreq)
-            meta.append((lang, n, edges, renamed, texts[0], l2.names_of(f), f["kinds"]))
+            meta.append((lang, n, edges, renamed, texts[0], l2.names_of(f), f["kinds"], names))
     allnames = set().union(*[m[5] for m in meta])
     mans = [l2.norm(a) for a in model(mreqs, names=allnames)]
     rans = [l2.norm(a) for a in runner(rreqs)]
     mismatch = None
-    for (lang, n, edges, renamed, text, _, kinds), ma, ra, rq in zip(meta, mans, rans, rreqs):
+    for (lang, n, edges, renamed, text, _, kinds, inames), ma, ra, rq in zip(meta, mans, rans, rreqs):
         check.saw(("order", lang, text), nontrivial=bool(edges))
         check.count("order-%s-%s" % (lang, "dag" if acyclic_edges(n, edges) else "cyclic"))
         if "ok" in ra:
@@ -274,7 +276,7 @@ def order_part(check):
 
             def defname(i):
                 # the name the item is defined under in this language (C09 matters aside: accept either)
-                for cand in ("R%d" % i, "T%d" % i):
+                for cand in ("R%d" % i, inames[i]):
                     if cand in pos:
                         return cand
                 return None
